@@ -16,6 +16,7 @@ from concurrent.futures import ThreadPoolExecutor
 
 VERIF = os.path.dirname(os.path.dirname(os.path.abspath(__file__)))
 OFIR_DUMP = os.path.join(VERIF, 'build', 'ofir-dump')
+PINNED = os.path.join(VERIF, 'engine', 'pinned_functions.txt')
 CACHE = os.environ.get('OFVERIF_CACHE') or os.path.join(VERIF, '.cache')
 
 
@@ -46,6 +47,9 @@ def _tree_hash(repo, config):
                 h.update(f.read())
     with open(OFIR_DUMP, 'rb') as f:
         h.update(hashlib.sha256(f.read()).digest())
+    if os.path.exists(PINNED):
+        with open(PINNED, 'rb') as f:
+            h.update(f.read())
     roots = [os.path.join(repo, 'src'), os.path.join(repo, 'CMakeLists.txt'),
              os.path.join(repo, '.version'), os.path.join(repo, 'pc'),
              os.path.join(repo, 'applis'), os.path.join(repo, 'tests'),
@@ -157,7 +161,7 @@ def _build_locked(config, verbose, repo, out):
             if r.returncode != 0:
                 return rel, 'clang failed on %s:\n%s' % (rel, r.stdout[-3000:]), None
             js = os.path.join(tmp_out, base + '.json')
-            r = _run([OFIR_DUMP, bc, js])
+            r = _run([OFIR_DUMP, bc, js] + ([PINNED] if os.path.exists(PINNED) else []))
             os.unlink(bc)
             if r.returncode != 0:
                 return rel, 'ofir-dump failed on %s:\n%s' % (rel, r.stdout[-3000:]), None
@@ -405,6 +409,13 @@ class Function(object):
                         i.ops[0].k in ('c', 'cf') and i.ops[1].k not in ('c', 'cf'):
                     # canonical form: `1 + i`, `31 & x` are `i + 1`, `x & 31` (clang -O0 keeps the source order)
                     i.ops = [i.ops[1], i.ops[0]]
+                if i.op in ('udiv', 'urem') and len(i.ops) == 2 and i.ops[1].k == 'c' and i.ops[1].v and \
+                        i.ops[1].v > 0 and (i.ops[1].v & (i.ops[1].v - 1)) == 0:
+                    # canonical form: unsigned x / 2^k and x % 2^k are x >> k and x & (2^k - 1)
+                    kk = i.ops[1].v.bit_length() - 1
+                    cv = V({'k': 'c', 'v': kk if i.op == 'udiv' else i.ops[1].v - 1, 'bits': i.ops[1].bits, 'ty': i.ops[1].ty}, self)
+                    i.ops = [i.ops[0], cv]
+                    i.op = 'lshr' if i.op == 'udiv' else 'and'
                 if i.op == 'icmp' and len(i.ops) == 2 and i.ops[0].k in ('c', 'null') and i.ops[1].k not in ('c', 'null'):
                     # canonical form: `0x7FFFFFFF < lo`, `NULL == p` are `lo > 0x7FFFFFFF`, `p == NULL`
                     i.ops = [i.ops[1], i.ops[0]]
